@@ -22,3 +22,22 @@ func VerifMain(args []string) int {
 }
 
 var verifCmds = map[string]func([]string) int{}
+
+// VerifFlushed returns the highest index such that every entry up to it is
+// covered by an on-disk segment header (what a process kill would preserve).
+func VerifFlushed(l *Log) uint64 {
+	s := l.last
+	for s != nil && s.synced < 0 {
+		s = s.prev
+	}
+	if s == nil {
+		return l.first.prevIndex
+	}
+	// segments before the last are synced when the log rolls over
+	for p := s.prev; p != nil; p = p.prev {
+		if p.synced < p.n {
+			s = p
+		}
+	}
+	return s.prevIndex + uint64(s.synced)
+}
